@@ -561,6 +561,13 @@ func (a *Activation) typeAssert(st *State, ins *ssa.TypeAssert) {
 	g.declareFun(payload, []string{SIface}, srt)
 	ok := and(not(eq(x.T, nilIface)), eq(app("Int", "iface_type", x.T), T("Int", fmt.Sprint(tid))))
 	v := app(srt, payload, x.T)
+	if srt == SLoc {
+		// pointer payload: the same location iface_loc names (ghost state keyed by the
+		// dynamic value, e.g. avail(r), follows the assertion)
+		t := g.fresh("tav", SLoc)
+		g.assertLine(and(eq(t, v), eq(t, app(SLoc, "iface_loc", x.T))), t)
+		v = t
+	}
 	if ins.CommaOk {
 		val := ite(ok, v, g.zero(ins.AssertedType))
 		a.set(ins, Val{Tuple: []Val{{T: val}, {T: ok}}})
